@@ -169,6 +169,20 @@ def r05_2(run, model):
         run.ob("R05.2", f"ResolveLocalEnv::{f.name}|search direction", ok, site(NR, f.node["sp"]),
                f"binders are {'appended at the back' if append_back else 'pushed at the front'}; lookup searches {'from the back' if rev else 'from the front'}",
                witness="`let x = 1; let x = 2; x` would resolve to the first x")
+    # a nested scope starts from its parent's binders: a copy that leaves entries behind must choose among equal names the way
+    # the lookup does (walk newest-first), or a shadowed binder comes back to life inside every block, closure and arm
+    copies = [f for f in fns if f.node.get("ret") and S.norm_ws(f.node["ret"]) in ("Self", "ResolveLocalEnv")]
+    run.floor("ResolveLocalEnv methods that produce an environment", len(copies), 1)
+    for f in copies:
+        loops = list(S.find(f.body, "For", "While")) + [c for c in S.walk(f.body) if c["k"] == "MethodCall" and c["method"] in ("filter", "filter_map", "retain", "dedup_by_key", "dedup_by", "take", "skip", "truncate")]
+        if not loops:
+            run.ob("R05.2", f"ResolveLocalEnv::{f.name}|the new scope sees the binders of its parent", True, site(NR, f.node["sp"]), "no entry is dropped: the environment is copied whole")
+            continue
+        rev = any(True for _ in S.calls(f.body, "rev", "next_back", "pop_back"))
+        ok = (append_back and rev) or (not append_back and not rev)
+        run.ob("R05.2", f"ResolveLocalEnv::{f.name}|the new scope sees the binders of its parent", ok, site(NR, loops[0]["sp"]),
+               f"entries are dropped while copying; the walk goes {'newest-first' if ok else 'oldest-first'} while lookups take the newest binder",
+               witness="`let x = 1; let x = 2; { x }` inside a block, closure or match arm resolves to the first x")
     # locals before definitions / builtins
     f = model.fn("resolve_expr", NR, impl="NameResolution")
     m = big_match(f, "Expr")
